@@ -1,11 +1,128 @@
 /-
 Props/C01.lean — property C01: acknowledged messages are in the log; failures are attributed exactly.
-Property theorems only; invariants and helper lemmas live in Lemmas/WriterInv.lean / Lemmas/WriterAck.lean.
+Property theorems only; the invariants live in Lemmas/WriterAck.lean (InvAck), Lemmas/WriterPlace.lean
+(InvPlace), Lemmas/WriterOrder.lean (InvOrd) and Lemmas/WriterCompl.lean (InvCompl, InvJournal).
+
+Model: Model/Writer.lean.  The broker is part of the model: `produce pw tp msgs out` is its decision for the
+in-flight attempt (out = acked | lost applied? | rejected code); `log tp` are the partition logs, `journal`
+the list of all decisions.  `Batch.acked` (ghost) = some attempt of the batch was applied and acknowledged.
+All theorems hold for every configuration (acks ≠ None is built in: every attempt gets a decision or a
+transport error) and every reachable state / accepted event, i.e. every finite event sequence.
 -/
-import KafkaVerif.Lemmas.WriterInv
+import KafkaVerif.Lemmas.WriterPlace
 
 namespace KV.C01
 open KV KV.Writer
+
+/-- what "message i of call c was appended by an acknowledged produce request to the partition the balancer
+chose" means in a state -/
+def AckedInChosenPartition (s : State) (c : Nat) (C : Call) (i : Nat) : Prop :=
+  ∃ b B, C.place i = some b ∧ s.batches b = some B ∧ B.acked = true ∧
+    C.assign[i]? = some B.tp ∧ (∃ m ∈ B.msgs, m.msg = (c, i)) ∧
+    (∃ e ∈ s.log B.tp, e.msg = (c, i) ∧ e.batch = b)
+
+theorem acked_of_done (s : State) (hA : InvAck s) (hP : InvPlace s) (c : Nat) (C : Call) (hC : s.calls c = some C)
+    (i : Nat) (hd : batchDone s (C.place i) = some 0) : AckedInChosenPartition s c C i := by
+  unfold batchDone at hd
+  split at hd
+  · cases hd
+  · rename_i b hb
+    split at hd
+    · cases hd
+    · rename_i B hB
+      have hack := hA.doneAcked b B hB hd
+      obtain ⟨B', hB', ⟨m, hm, hmm⟩, ha⟩ := hP.placed c C hC i b hb
+      rw [hB] at hB'; cases hB'
+      obtain ⟨e, he, h1, h2⟩ := hA.ackedInLog b B hB hack m hm
+      exact ⟨b, B, hb, hB, hack, ha, ⟨m, hm, hmm⟩, ⟨e, he, h1.trans hmm, h2⟩⟩
+
+/-- **ack_exact** — when a synchronous WriteMessages call returns nil (`ret c .ok` is taken), every message of the
+call sits in a batch that was applied and acknowledged by the broker, in the log of the topic-partition the
+balancer chose for it. -/
+theorem ack_exact (cfg : Cfg) (s s' : State) (hr : Reachable cfg s) (c : Nat)
+    (hs : step cfg s (.ret c .ok) = some s') :
+    ∃ C, s.calls c = some C ∧ cfg.async = false ∧ ∀ i, i < C.msgs.length → AckedInChosenPartition s c C i := by
+  have hA := invAck cfg s hr
+  have hP := invPlace cfg s hr
+  simp only [step, stepRet] at hs
+  repeat' split at hs
+  all_goals (first | (cases hs; done) | skip)
+  rename_i _ C hC hg
+  obtain ⟨hasync, -, hall⟩ := hg
+  refine ⟨C, hC, hasync, ?_⟩
+  intro i hi
+  rw [List.all_eq_true] at hall
+  have := hall i (List.mem_range.mpr hi)
+  exact acked_of_done s hA hP c C hC i (by simpa using this)
+
+/-- **werr_exact** — when WriteMessages returns WriteErrors (`ret c (.werr codes)`), entry i is nil exactly when
+message i was acknowledged that way; a non-nil entry is the final error of the message's batch, and no attempt of
+that batch was acknowledged. -/
+theorem werr_exact (cfg : Cfg) (s s' : State) (hr : Reachable cfg s) (c : Nat) (codes : List Code)
+    (hs : step cfg s (.ret c (.werr codes)) = some s') :
+    ∃ C, s.calls c = some C ∧ codes.length = C.msgs.length ∧ ∀ i, i < C.msgs.length →
+      ∃ b B code, C.place i = some b ∧ s.batches b = some B ∧ codes[i]? = some code ∧ B.done = some code ∧
+        (code = 0 ↔ B.acked = true) ∧ (code = 0 → AckedInChosenPartition s c C i) := by
+  have hA := invAck cfg s hr
+  have hO := invOrd cfg s hr
+  have hP := invPlace cfg s hr
+  simp only [step, stepRet] at hs
+  repeat' split at hs
+  all_goals (first | (cases hs; done) | skip)
+  rename_i _ C hC hg
+  obtain ⟨-, -, hlen, hall, -⟩ := hg
+  refine ⟨C, hC, hlen, ?_⟩
+  intro i hi
+  rw [List.all_eq_true] at hall
+  have hi' := hall i (List.mem_range.mpr hi)
+  have hcode : ∃ code, codes[i]? = some code := by
+    have : i < codes.length := hlen ▸ hi
+    exact ⟨codes[i], List.getElem?_eq_getElem this⟩
+  obtain ⟨code, hcode⟩ := hcode
+  rw [hcode] at hi'
+  have hd : batchDone s (C.place i) = some code := by simpa using hi'
+  have hd0 := hd
+  unfold batchDone at hd
+  split at hd
+  · cases hd
+  · rename_i b hb
+    split at hd
+    · cases hd
+    · rename_i B hB
+      refine ⟨b, B, code, hb, hB, hcode, hd, ⟨?_, ?_⟩, ?_⟩
+      · intro h0; subst h0; exact hA.doneAcked b B hB hd
+      · intro hack
+        rcases hA.ackedWhere b B hB hack with h0 | ⟨P, hPq, hst⟩
+        · rw [hd] at h0; cases h0; rfl
+        · -- the sender still holds b, so b is in a pipeline and cannot be done
+          have hmem : b ∈ P.pipe := sender_mem_pipe (ackState_batch hst)
+          have := hA.pipeLive B.pw P hPq b hmem B hB
+          rw [hd] at this; cases this
+      · intro h0; subst h0
+        exact acked_of_done s hA hP c C hC i hd0
+
+/-- **no_foreign_partition** — a message is only ever appended to the log of the topic-partition that the balancer
+chose for it (`assign` records the balancer's answer and the topic chosen by chooseTopic); also every message in
+every batch, hence in every produce request, was assigned to that request's topic-partition. -/
+theorem no_foreign_partition (cfg : Cfg) (s : State) (hr : Reachable cfg s) :
+    (∀ tp, ∀ e ∈ s.log tp, ∃ C, s.calls e.msg.1 = some C ∧ C.assign[e.msg.2]? = some tp) ∧
+    (∀ b B, s.batches b = some B → ∀ m ∈ B.msgs, ∃ C, s.calls m.msg.1 = some C ∧ C.assign[m.msg.2]? = some B.tp) :=
+  ⟨(invPlace cfg s hr).logTP, (invPlace cfg s hr).batchTP⟩
+
+/-- **assign_is_balancer_choice** — the recorded assignment of index i is taken once, in index order, with the topic
+that chooseTopic selects (message-level or writer-level topic; a conflict never gets an assignment). -/
+theorem assign_is_balancer_choice (cfg : Cfg) (s s' : State) (c i : Nat) (tp : TP)
+    (hs : step cfg s (.assign c i tp) = some s') :
+    ∃ C m, s.calls c = some C ∧ C.assign.length = i ∧ C.msgs[i]? = some m ∧ chooseTopic cfg m = some tp.1 ∧
+      s'.calls c = some { C with phase := .assigning, assign := C.assign ++ [tp] } := by
+  simp only [step] at hs
+  repeat' split at hs
+  all_goals (first | (cases hs; done) | skip)
+  rename_i _ C hC hg
+  obtain ⟨-, hlen, -, hm⟩ := hg
+  obtain ⟨m, hmi, hch⟩ := msgAt_elim hm
+  cases hs
+  exact ⟨C, m, hC, hlen, hmi, by simpa using hch, by simp⟩
 
 /-- **ok_needs_broker_ack** — an attempt can end without error on the client side only if the broker applied and
 acknowledged exactly that attempt. -/
